@@ -606,6 +606,35 @@ def translate():
                 elif n.func.attr == 'settimeout':
                     evs.append((n.lineno, n.col_offset, 'settimeout(%s)' % ', '.join(ast.unparse(a) for a in n.args)))
         connect_call_order = [e[2] for e in sorted(evs)]
+    # ---- selectors.py (C18): what each platform selector hands to the OS as its timeout (select / kqueue take seconds, poll takes
+    # milliseconds), and that SelectorBase.wait looks at the TLS layer's pending() before it waits on the descriptor
+    selector_timeouts = []
+    wait_pending_first = False
+    try:
+        sel_tree = parse_src('selectors.py')
+    except Exception:  # noqa
+        sel_tree = None
+        problems.append('selectors.py not found')
+    for cls in (sel_tree.body if sel_tree else []):
+        if not isinstance(cls, ast.ClassDef):
+            continue
+        fn = find_func(cls, 'wait_readable')
+        if fn is not None:
+            for n in ast.walk(fn):
+                if isinstance(n, ast.Call) and isinstance(n.func, ast.Attribute) and n.func.attr in ('select', 'poll', 'control') and n.args:
+                    selector_timeouts.append((cls.name, n.func.attr, ast.unparse(n.args[-1])))
+        if cls.name == 'SelectorBase':
+            w = find_func(cls, 'wait')
+            if w is not None:
+                stmts = [st for st in w.body if not (isinstance(st, ast.Expr) and isinstance(st.value, ast.Constant))]
+                first = stmts[0] if stmts else None
+                # `if hasattr(sock, 'pending') and sock.pending(): return True, sock.pending()` comes before any wait_readable call
+                pend_first = (isinstance(first, ast.If) and 'pending()' in ast.unparse(first.test)
+                              and any(isinstance(r, ast.Return) and 'pending()' in ast.unparse(r) and ast.unparse(r).startswith('return (True,') for r in ast.walk(first))
+                              and 'wait_readable' not in ast.unparse(first))
+                later = any('wait_readable' in ast.unparse(st) for st in stmts[1:])
+                wait_pending_first = bool(pend_first and later)
+    selector_timeouts = sorted(selector_timeouts)
     facts['ast'] = dict(structure=structure, class_level=class_level,header_sep=ru[0], header_max=ru[1], proxy_sep=pru[0], proxy_max=pru[1],
                         texts=texts, state_attrs=state_attrs, ws_writes=ws_method_writes,
                         session_writes=se_writes, stream_writes=st_writes, fp_writes=fp_writes,
@@ -762,6 +791,10 @@ def fromOptionsFresh : Bool := {'true' if from_options_fresh else 'false'}
 def settimeoutNoneIn : List String := [{', '.join(lean_str(x) for x in settimeout_none_in)}]
 /-- `_connect`: its calls of `_connect_proxy` / `_connect_sock` / `settimeout`, in source order -/
 def connectCallOrder : List String := [{', '.join(lean_str(x) for x in connect_call_order)}]
+/-- (selector class, OS call, the expression passed as its time-out): `select.select` and `kqueue.control` take seconds, `poll.poll` milliseconds -/
+def selectorTimeouts : List (String × String × String) := [{', '.join('(%s, %s, %s)' % (lean_str(a), lean_str(b), lean_str(c)) for a, b, c in selector_timeouts)}]
+/-- `SelectorBase.wait` returns `(True, sock.pending())` when the TLS layer has decrypted bytes buffered, BEFORE it would wait on the descriptor -/
+def waitChecksPendingFirst : Bool := {'true' if wait_pending_first else 'false'}
 /-- keyword arguments `persist` forwards to `connect`: (keyword, variable) -/
 def persistConnectKw : List (String × String) := [{', '.join('(%s, %s)' % (lean_str(a), lean_str(b)) for a, b in persist_kw)}]
 
